@@ -31,15 +31,29 @@ class Outcome:
     def sorted_call(self):
         return self.sorts[0] if self.sorts else None
 
+    def _module_helpers(self):
+        """Module-level helpers of the sort functions: those of their own module and the package functions it imports by name
+        (`from ._util import skill_point_list`)."""
+        out = {d.name: d for d in self.f.module.tree.body if isinstance(d, ast.FunctionDef) and not d.name.startswith("sort_")}
+        from .effects import _REPO
+        repo = _REPO[0]
+        if repo is not None:
+            for st0 in self.f.module.tree.body:
+                if isinstance(st0, ast.ImportFrom) and st0.level >= 1:
+                    for al in st0.names:
+                        fi = repo.functions.get(al.name)
+                        if fi is not None and al.asname is None and not al.name.startswith("sort_"):
+                            out.setdefault(al.name, fi.node)
+        return out
+
     def key_nodes(self):
         """AST nodes making up the leading key: the lambda / def itself plus the nested helpers it calls (transitively)."""
         s = self.sorted_call
         if s is None or not isinstance(s.key, FuncV):
             return []
         nested = {d.name: d for d in ast.walk(self.f.node) if isinstance(d, ast.FunctionDef) and d is not self.f.node}
-        for d in self.f.module.tree.body:
-            if isinstance(d, ast.FunctionDef) and not d.name.startswith("sort_"):
-                nested.setdefault(d.name, d)   # module-level helpers count like nested ones
+        for d in self._module_helpers().values():
+            nested.setdefault(d.name, d)   # module-level helpers count like nested ones
         out, todo = [], [s.key.node]
         while todo:
             n = todo.pop()
@@ -63,7 +77,7 @@ class Outcome:
         if s is None or not isinstance(s.key, FuncV):
             return None, None
         env = s.env
-        modfuncs = {d.name: d for d in self.f.module.tree.body if isinstance(d, ast.FunctionDef) and not d.name.startswith("sort_")}
+        modfuncs = self._module_helpers()
 
         def body_of(fn_node):
             """-> (params, return expression with the def's local single assignments substituted) or None"""
@@ -101,6 +115,12 @@ class Outcome:
                         b = body_of(fv.node)
                         if b is not None and len(b[0]) == len(c.args):
                             return expand(subst(copy.deepcopy(b[1]), dict(zip(b[0], c.args))), depth + 1)
+                        if b is not None and len(b[0]) > len(c.args) and not isinstance(fv.node, ast.Lambda):
+                            dfl = fv.node.args.defaults
+                            m = dict(zip(b[0][len(b[0]) - len(dfl):], dfl))
+                            m.update(dict(zip(b[0], c.args)))
+                            if set(b[0]) <= set(m):
+                                return expand(subst(copy.deepcopy(b[1]), m), depth + 1)
                     return c
 
                 def visit_BinOp(self, n):
